@@ -5,6 +5,7 @@ import BSEProofs.Props.C04
 import BSEGen.Formats
 import BSEModel.NwchemInst
 import BSEProofs.Lemmas.NwchemRT
+import BSEProofs.Lemmas.NwchemEcp
 /-! # C03 — reading back what the library wrote never silently changes the basis
 
 What is proved: (1) the number tables survive print → read token for token (only the exponent marker
@@ -202,6 +203,77 @@ theorem nwchem_electron_roundtrip {ν : Type} (isNum : ν → Bool) (harm : List
   · intro e he sh hs
     obtain ⟨h1, h2, h3, h4, h5, h6, h7, h8⟩ := hsh e he sh hs
     exact ⟨h1, h2, h3, ⟨h4, h5⟩, nwchem_am_roundtrip isNum sh.am h6 h7, h8⟩
+
+/-! ## (5) the NWChem ECP section: what comes back, and what the format cannot hold -/
+
+open BSE.Nwchem in
+/-- **NWChem ECP section: read(write(els))**, over the library's tables.  Every element, electron count and potential
+comes back in write order with its terms token for token; every potential but the first keeps its momentum; the first
+(the highest, written as `ul`) gets `ulAm` = (highest other momentum) + 1, because the text does not record it. -/
+theorem nwchem_ecp_readback {ν : Type} (isNum isInt : ν → Bool) (els : List (Nat × List Char × List (EPot ν)))
+    (hnd : (els.map (·.1)).Nodup)
+    (hok : ∀ e ∈ els, ElOK (realEcpTables isNum isInt) e) (hs : ∀ e ∈ els, ElShape e) :
+    readEcp (realEcpTables isNum isInt) (ecpLines (realEcpTables isNum isInt) els) = .ok (els.map readEl) :=
+  readEcp_write (realEcpTables isNum isInt) els hnd hok hs
+
+open BSE.Nwchem BSE.Notation in
+/-- the premises `ElOK` of `nwchem_ecp_readback` hold over the library's tables for every element 1..118 whose potentials
+have typed, non-empty term lists and momenta below 25 -/
+theorem nwchem_ecp_premises {ν : Type} (isNum isInt : ν → Bool) (e : Nat × List Char × List (EPot ν))
+    (hz : e.1 ∈ List.range' 1 118) (hn : (!e.2.1.isEmpty && e.2.1.all Char.isDigit) = true)
+    (hp : ∀ p ∈ writeOrder e.2.2, p.terms ≠ [] ∧ p.am < 25
+      ∧ ∀ t ∈ p.terms, isInt t.1 = true ∧ isNum t.2.1 = true ∧ isNum t.2.2 = true) :
+    ElOK (realEcpTables isNum isInt) e := by
+  have hsym : ∀ z ∈ List.range' 1 118, zFromSym ((symFromZNorm z).getD []) = some z
+      ∧ isAlphaStr ((symFromZNorm z).getD []) = true
+      ∧ zFromSym (lower ((symFromZNorm z).getD [])) = some z := by decide +kernel
+  have hul : ∀ l ∈ List.range 25, (lower (([l].filterMap (amChar false)).map Char.toUpper) == "ul".toList) = false := by
+    decide +kernel
+  refine ⟨⟨(hsym e.1 hz).1, (hsym e.1 hz).2.1⟩, (hsym e.1 hz).2.2, hn, ?_⟩
+  intro p hpw
+  obtain ⟨h1, h2, h3⟩ := hp p hpw
+  have ham := nwchem_am_roundtrip isNum [p.am] (by simp) (by intro l hl; simp at hl; omega)
+  exact ⟨h1, h3, ham.1, ham.2, hul p.am (List.mem_range.2 h2)⟩
+
+open BSE.Nwchem in
+/-- **the ECP round trip is faithful exactly when the highest momentum is one above the next** -/
+theorem nwchem_ecp_faithful_iff {ν : Type} (e : Nat × List Char × List (EPot ν)) (top : EPot ν) (rest : List (EPot ν))
+    (hw : writeOrder e.2.2 = top :: rest) :
+    readEl e = (e.1, e.2.1, (top :: rest).map readPot) ↔ top.am = ulAm rest :=
+  readEl_faithful_iff e top rest hw
+
+/-- a copper ECP with potentials for l = 0 and l = 2 only (the validator accepts it) -/
+def gapEcp : List (Nat × List Char × List (BSE.Nwchem.EPot String)) :=
+  [(29, "10".toList, [{ am := 0, terms := [("2", "1.5", "3.0")] }, { am := 2, terms := [("1", "0.7", "-1.0")] }])]
+
+def allTok : String → Bool := fun _ => true
+
+open BSE.Nwchem in
+/-- **limit of the format, proved on the model and replayed on the library (finding F14):** the l = 2 potential of
+`gapEcp` is written as `ul` and read back as l = 1 — silently altered -/
+theorem nwchem_ecp_gap_limit :
+    (readEcp (realEcpTables allTok allTok) (ecpLines (realEcpTables allTok allTok) gapEcp)).toOption
+      = some [(29, "10".toList, [{ am := some [1], rexp := ["1"], gexp := ["0.7"], coef := ["-1.0"] },
+                                  { am := some [0], rexp := ["2"], gexp := ["1.5"], coef := ["3.0"] }])] := by
+  decide +kernel
+
+open BSE.Nwchem in
+/-- … and a lone local potential cannot be read at all (`max()` of nothing) -/
+theorem nwchem_ecp_single_limit :
+    (readEcp (realEcpTables allTok allTok) (ecpLines (realEcpTables allTok allTok)
+      [(29, "10".toList, [{ am := 2, terms := [("1", "0.7", "-1.0")] }])])).toOption = none := by
+  decide +kernel
+
+open BSE.Nwchem in
+/-- non-vacuity of `nwchem_ecp_readback`: a contiguous ECP (l = 0, 1, 2) meets `ElOK` and `ElShape` and comes back unchanged -/
+example :
+    (readEcp (realEcpTables allTok allTok) (ecpLines (realEcpTables allTok allTok)
+      [(29, "10".toList, [{ am := 1, terms := [("2", "1.1", "2.0")] }, { am := 0, terms := [("2", "1.5", "3.0")] },
+                          { am := 2, terms := [("1", "0.7", "-1.0")] }])])).toOption
+      = some [(29, "10".toList, [{ am := some [2], rexp := ["1"], gexp := ["0.7"], coef := ["-1.0"] },
+                                  { am := some [0], rexp := ["2"], gexp := ["1.5"], coef := ["3.0"] },
+                                  { am := some [1], rexp := ["2"], gexp := ["1.1"], coef := ["2.0"] }])] := by
+  decide +kernel
 
 example : tokens (replaceD (convExp true (rowLine [(7, "1.5e+01".toList), (20, "-2.0E-01".toList)] [])))
     = ["1.5E+01".toList, "-2.0E-01".toList] := by decide +kernel
